@@ -319,6 +319,46 @@ func runC25(c *core.Ctx) {
 				}
 			}
 		}
+		// ... or by a method of the cache handed the evicted hashes, which removes its parameter from txByHash on
+		// every path that does not find the list empty
+		if !ok {
+			for _, in := range core.CallsIn(fn, func(in ssa.Instruction, cc *ssa.CallCommon) bool {
+				h := cc.StaticCallee()
+				return h != nil && h.Blocks != nil && h.Pkg == fn.Pkg && h != fn
+			}) {
+				cc := core.CallOf(in)
+				h := cc.StaticCallee()
+				for pi, p := range h.Params {
+					if pi >= len(cc.Args) {
+						continue
+					}
+					ex, isEx := cc.Args[pi].(*ssa.Extract)
+					if !isEx || ex.Index != 1 {
+						continue
+					}
+					call, isC := ex.Tuple.(*ssa.Call)
+					if !isC || core.CallDesc(&call.Call).Name != "addTx" || !isRecvField(fn, call.Call.Args[0], "txListBySender") {
+						continue
+					}
+					removes := func(x ssa.Instruction) bool {
+						c2 := core.CallOf(x)
+						return c2 != nil && core.CallDesc(c2).Name == "RemoveTxsBulk" && len(c2.Args) == 2 && c2.Args[1] == ssa.Value(p) && isRecvField(h, c2.Args[0], "txByHash")
+					}
+					emptyEdge := edgeFact(func(f core.Fact, _ core.Cond) bool {
+						key := "len(" + core.ExprKey(p) + ")"
+						if ub, has := f.UpperBound(key); has && ub <= 0 {
+							return true
+						}
+						return false
+					})
+					esc, _ := core.PathQ{Fn: h, Via: removes, ViaEdge: emptyEdge, Target: core.AnyReturn}.Escape()
+					if esc == nil && len(core.CallsIn(h, func(x ssa.Instruction, _ *ssa.CallCommon) bool { return removes(x) })) > 0 {
+						ok = true
+						c.Analysed(fname(h))
+					}
+				}
+			}
+		}
 		c.Check(ok, "C25/both-indexes-updated", "TxCache.AddTx/evicted-removed-from-by-hash", fn.Pos(), "transactions evicted from the sender's list are removed from the by-hash index",
 			"the hashes evicted by the per-sender constraint are not removed from txByHash: the by-hash index keeps transactions no sender list holds")
 	}
